@@ -2,7 +2,7 @@
    (pointers are addresses, NULL = 0, sizes are size_t values) -> program returning
    the list [return value; extra results...]. *)
 From Coq Require Import List ZArith Bool.
-From SC Require Import Base Cfg Comb ModStr ModMem ModTok ModTs ModSearch.
+From SC Require Import Base Cfg Comb ModStr ModMem ModTok ModTs ModSearch ModConv.
 Import ListNotations.
 Local Open Scope Z_scope.
 Local Open Scope prog_scope.
@@ -15,7 +15,8 @@ Inductive fn :=
 | F_memcpy32_s | F_memmove32_s | F_memset32_s | F_memzero32_s
 | F_strtok_seq | F_wcstok_seq
 | F_timingsafe_bcmp | F_timingsafe_memcmp
-| F_bsearch_s | F_strzero_s.
+| F_bsearch_s | F_strzero_s
+| F_mbstowcs_s_u8 | F_mbstowcs_s_c | F_wcstombs_s_u8 | F_wcstombs_s_c | F_wcrtomb_s_u8 | F_wcrtomb_s_c | F_wctomb_s_u8 | F_wctomb_s_c.
 
 Definition arg (l : list Z) (i : nat) : Z := nth i l 0.
 Definition ret1 (p : prog Z) : prog (list Z) := r <- p ;; Ret [r].
@@ -45,6 +46,14 @@ Definition run_fn (c : cfg) (f : fn) (a : list Z) : prog (list Z) :=
   | F_timingsafe_memcmp => ret1 (timingsafe_memcmp c (arg a 0) (arg a 1) (arg a 2) (arg a 3) (arg a 4))
   | F_bsearch_s => ret1 (bsearch_s c (arg a 0) (arg a 1) (arg a 2) (arg a 3) (arg a 4))
   | F_strzero_s => ret1 (strzero_s c (arg a 0) (arg a 1) (arg a 2))
+  | F_mbstowcs_s_u8 => ret1 (mbstowcs_s c true (arg a 0) (arg a 1) (arg a 2) (arg a 3) (arg a 4) (arg a 5))
+  | F_mbstowcs_s_c => ret1 (mbstowcs_s c false (arg a 0) (arg a 1) (arg a 2) (arg a 3) (arg a 4) (arg a 5))
+  | F_wcstombs_s_u8 => ret1 (wcstombs_s c true (arg a 0) (arg a 1) (arg a 2) (arg a 3) (arg a 4) (arg a 5))
+  | F_wcstombs_s_c => ret1 (wcstombs_s c false (arg a 0) (arg a 1) (arg a 2) (arg a 3) (arg a 4) (arg a 5))
+  | F_wcrtomb_s_u8 => ret1 (wcrtomb_s c true (arg a 0) (arg a 1) (arg a 2) (arg a 3) (arg a 4) (arg a 5))
+  | F_wcrtomb_s_c => ret1 (wcrtomb_s c false (arg a 0) (arg a 1) (arg a 2) (arg a 3) (arg a 4) (arg a 5))
+  | F_wctomb_s_u8 => ret1 (wctomb_s c true (arg a 0) (arg a 1) (arg a 2) (arg a 3) (arg a 4))
+  | F_wctomb_s_c => ret1 (wctomb_s c false (arg a 0) (arg a 1) (arg a 2) (arg a 3) (arg a 4))
   | F_wcstok_seq => wcstok_seq c (arg a 0) (arg a 1) (arg a 2) (arg a 3) (arg a 4) (arg a 5)
   end.
 
